@@ -308,3 +308,28 @@ for name in ("array_equal", "array_equiv"):
     T("np." + name, "same-object|(4,)", (lambda a, f=getattr(np, name): f(a, a)), {"a": I("X", (4,))}, cls="bare")
 T("np.array_equal", "same-object,nan,equal_nan|(4,)", lambda a: np.array_equal(a, a, equal_nan=True), {"a": I("X", (4,), "nan")}, cls="bare")
 T("np.array_equal", "same-object,complex-nan|(4,)", lambda a: np.array_equal(a * (1 + 0j), a * (1 + 0j)) and np.array_equal(a, a), {"a": I("X", (4,), "nan")}, cls="bare")
+
+# ---- reflected operand order: plain data first, quantity second (nearly equal and clearly different elements) -----------
+for name in ("allclose", "isclose"):
+    f = getattr(np, name)
+    T("np." + name, "bare-first,differs|(4,)", lambda a, b, f=f: f(a, b), {"a": I(None, (4,)), "b": I("X", (4,))}, cls="bare", noncov="bare data are read in the quantity's current unit")
+    T("np." + name, "bare-first,list,nearly-equal|(4,)", lambda b, f=f: f((np.asarray(b.d if hasattr(b, "d") else b) * (1 + 1e-9)).tolist(), b), {"b": I("X", (4,))}, cls="bare", noncov="bare data are read in the quantity's current unit")
+    T("np." + name, "bare-first,one-off|(4,)", lambda b, f=f: f(np.asarray(b.d if hasattr(b, "d") else b) + np.array([0.0, 0.5, 0.0, 0.0]), b), {"b": I("X", (4,))}, cls="bare", noncov="bare data are read in the quantity's current unit")
+    T("np." + name, "bare-second,one-off|(4,)", lambda b, f=f: f(b, np.asarray(b.d if hasattr(b, "d") else b) + np.array([0.0, 0.5, 0.0, 0.0])), {"b": I("X", (4,))}, cls="bare", noncov="bare data are read in the quantity's current unit")
+# ---- a plain ndarray as out= buffer of functions that accept one ------------------------------------------------------------
+T("np.take", "bare-out|(4,)", lambda a, out: np.take(a, [0, 2], out=out), {"a": I("X", (4,)), "out": I(None, (2,), "zeros")}, cls="same", inplace=("out",), noncov="a bare buffer holds the numbers in the input's current unit")
+T("np.take", "bare-out,axis,mode|(2,3)", lambda a, out: np.take(a, [1, 5], axis=1, out=out, mode="clip"), {"a": I("X", (2, 3)), "out": I(None, (2, 2), "zeros")}, cls="same", inplace=("out",), noncov="a bare buffer holds the numbers in the input's current unit")
+T("ndarray.take", "bare-out|(4,)", lambda a, out: a.take([3, 1], out=out), {"a": I("X", (4,)), "out": I(None, (2,), "zeros")}, cls="same", inplace=("out",), noncov="a bare buffer holds the numbers in the input's current unit")
+for name in ("sum", "max", "mean", "cumsum"):
+    T("np." + name, "bare-out,axis0|(2,3)", (lambda a, out, f=getattr(np, name): f(a, axis=0, out=out)), {"a": I("X", (2, 3)), "out": I(None, (3,) if name != "cumsum" else (2, 3), "zeros")}, cls="same", inplace=("out",), noncov="a bare buffer holds the numbers in the input's current unit")
+T("np.concatenate", "bare-out|(2,)(3,)", lambda a, b, out: np.concatenate([a, b], out=out), {"a": I("X", (2,)), "b": I("X", (3,)), "out": I(None, (5,), "zeros")}, cls="same", inplace=("out",), noncov="a bare buffer holds the numbers in the input's current unit")
+T("np.clip", "bare-out|(4,)", lambda a, lo, hi, out: np.clip(a, lo, hi, out=out), {"a": I("X", (4,)), "lo": I("X", ()), "hi": I("X", (), "pos"), "out": I(None, (4,), "zeros")}, cls="same", inplace=("out",), noncov="a bare buffer holds the numbers in the input's current unit")
+T("np.around", "bare-out|(4,)", lambda a, out: np.around(a, 1, out=out), {"a": I("X", (4,)), "out": I(None, (4,), "zeros")}, cls="same", inplace=("out",), noncov="rounding is not scale-covariant")
+T("np.dot", "bare-out|(2,3)(3,2)", lambda a, b, out: np.dot(a, b, out=out), {"a": I("X", (2, 3)), "b": I("Y", (3, 2)), "out": I(None, (2, 2), "zeros")}, cls="other", inplace=("out",), noncov="a bare buffer holds the numbers in the inputs' current units")
+# ---- percentile family with every argument positional ------------------------------------------------------------------------
+for name in ("percentile", "quantile", "nanpercentile", "nanquantile"):
+    f = getattr(np, name)
+    q = 40 if "percentile" in name else 0.4
+    T("np." + name, "all-positional,method|(3,5)", (lambda a, out, f=f, q=q: f(a, q, 1, out, False, "nearest")), {"a": I("X", (3, 5)), "out": I("X", (3,), "zeros")}, inplace=("out",))
+    T("np." + name, "positional-axis,kw-method|(3,5)", (lambda a, f=f, q=q: f(a, q, 0, method="higher")), {"a": I("X", (3, 5))})
+    T("np." + name, "all-positional,keepdims|(3,5)", (lambda a, f=f, q=q: f(a, q, None, None, False, "midpoint", True)), {"a": I("X", (3, 5))})
